@@ -5,10 +5,12 @@ GeophiresXClient / geophires_x.__main__ and records what a caller can observe ar
 
 jobs.json = [job,...]; the packages are imported once, then every job runs in its own forked child (process state
 after import = that of a fresh interpreter), which writes job['out'].
-job = {dirs: [abs dir,...], paths: [abs input path,...], contents: [text,...], cwd: dir index,
-       argv: [token,...], ops: [[kind, ...],...], tmp: dir, out: file}
+job = {dirs: [abs dir,...], paths: [abs input path,...], files: {id: abs path} (further files, e.g. the targets of the
+       relative names), rel: {id: relative path string} (request paths given RELATIVE, exactly as written here),
+       contents: [text,...], cwd: dir index, argv: [token,...], ops: [[kind, ...],...], tmp: dir, out: file}
 ops:  ["newclient", caching] ["get", ci, p] ["getdict", ci, p, c] ["write", p, c] ["delete", p]
       ["chdir", d] ["setargv", [token,...]] ["cli", p] ["getmix", ci, p, q, [[name, value],...], c]
+      ["hip", k, p]   (k = 1: HipRaXClient, 2: HipRaClient; a new client and a new HipRaInputParameters per request)
 A "getdict" builds GeophiresInputParameters(<dict of content c>): the client library creates its own uuid-named
 file, which becomes path p of the session (the model sees Write p c; Get ci p).  A "getmix" builds
 GeophiresInputParameters(from_file_path=<path q>, params=<overrides>): the library's file (path p) holds the base
@@ -56,18 +58,29 @@ def run_session(job):
     from pathlib import Path
     os.environ['TMPDIR'] = job['tmp']
     tempfile.tempdir = job['tmp']
+    import hip_ra
+    import hip_ra_x
     src_dir = os.path.realpath(os.path.dirname(GEOPHIRESv3.__file__))
-    dirs, paths, contents = job['dirs'], list(job['paths']), job['contents']
+    pkg_dirs = {os.path.realpath(os.path.dirname(hip_ra_x.__file__)): 1, os.path.realpath(os.path.dirname(hip_ra.__file__)): 2}
+    dirs, contents = job['dirs'], job['contents']
+    paths = dict(enumerate(job['paths']))                       # id -> absolute path
+    paths.update({int(k): v for k, v in job.get('files', {}).items()})
+    rel = {int(k): v for k, v in job.get('rel', {}).items()}    # id -> relative request path
+
+    def req_path(p):
+        return Path(rel[p]) if p in rel else Path(paths[p])
     for d in dirs + [job['tmp']]:
         os.makedirs(d, exist_ok=True)
 
     def out_of(p):
-        return str(GeophiresInputParameters(from_file_path=Path(paths[p])).get_output_file_path())
+        return str(GeophiresInputParameters(from_file_path=req_path(p)).get_output_file_path())
 
     def enc_dir(d):
         d = os.path.realpath(d)
         if d == src_dir:
             return ['S']
+        if d in pkg_dirs:
+            return ['P', pkg_dirs[d]]
         for i, x in enumerate(dirs):
             if os.path.realpath(x) == d:
                 return ['D', i]
@@ -82,10 +95,12 @@ def run_session(job):
                 out.append(['E'])
             elif m:
                 out.append(['U', int(m.group(1))])
-            elif s in paths:
-                out.append(['I', paths.index(s)])
+            elif s in rel.values() or s in paths.values():
+                out.append(['I', [i for i, v in list(rel.items()) + list(paths.items()) if v == s][0]])
+            elif os.path.basename(s).startswith('hip-ra-result_'):
+                out.append(['H'])
             else:
-                hit = [i for i in range(len(paths)) if paths[i] and out_of(i) == s]
+                hit = [i for i in list(rel) + list(paths) if out_of(i) == s]
                 out.append(['O', hit[0]] if hit else ['U', 999])
         return out
 
@@ -99,7 +114,7 @@ def run_session(job):
         sys.stdout = io.StringIO()
         try:
             if kind == 'cli':   # the harness prepares argv; "before" is taken after that
-                sys.argv = ['u0', paths[op[1]], out_of(op[1])]
+                sys.argv = ['u0', str(req_path(op[1])), out_of(op[1])]
             ip = None
             if kind in ('getdict', 'getmix'):   # the library writes the request file itself
                 if kind == 'getdict':
@@ -109,8 +124,6 @@ def run_session(job):
                     want = contents[op[5]]
                     ip = GeophiresInputParameters(params=dict(map(tuple, op[4])), from_file_path=Path(paths[op[3]]))
                 assert ip.as_text() == want, 'library-built request does not have the expected content'
-                while len(paths) <= op[2]:
-                    paths.append('')
                 paths[op[2]] = str(ip.as_file_path())
             pre = (os.getcwd(), list(sys.argv))
             if kind == 'newclient':
@@ -121,7 +134,7 @@ def run_session(job):
                     out = ['noclient']
                 else:
                     try:
-                        r = clients[ci].get_geophires_result(ip or GeophiresInputParameters(from_file_path=Path(paths[p])))
+                        r = clients[ci].get_geophires_result(ip or GeophiresInputParameters(from_file_path=req_path(p)))
                         hit = any(r is x for x in results)
                         results.append(r)
                         rep, js = (None, None) if hit else digest_files(r.output_file_path)
@@ -140,7 +153,16 @@ def run_session(job):
                         out = ['raised', 'SystemExit', str(e.code)]
                 except BaseException as e:  # noqa
                     out = ['raised', type(e).__name__, str(e)[:200]]
+            elif kind == 'hip':
+                try:
+                    client = hip_ra_x.HipRaXClient() if op[1] == 1 else hip_ra.HipRaClient()
+                    r = client.get_hip_ra_result(hip_ra.HipRaInputParameters(req_path(op[2])))
+                    text = open(r.output_file_path, encoding='UTF-8').read()
+                    out = ['ret', sha(json.dumps(r.result, sort_keys=True, default=str)), False, sha(MASK.sub(r'\1 <masked>', text)), None]
+                except BaseException as e:  # noqa
+                    out = ['raised', type(e).__name__, str(e)[:200]]
             elif kind == 'write':
+                Path(paths[op[1]]).parent.mkdir(parents=True, exist_ok=True)
                 Path(paths[op[1]]).write_text(contents[op[2]], encoding='UTF-8')
             elif kind == 'delete':
                 try:
